@@ -240,10 +240,10 @@ PROPS = {
             "also": ["C09_SrvStreamLevel", "C09_CliStreamLevel", "C09_BoundedBuffer", "C05_CreditConserved", "C05_CreditExact"],
             "quick": lambda s: gen.fam_data(s, 48) + gen.fam_flow(s, 16) + [x for x in gen.fam_hostile_srv(s) + gen.fam_hostile_cli(s) if "overrun" in x["name"]],
             "thorough": lambda s: gen.fam_data(s, 600, big=True) + gen.fam_flow(s, 200) + gen.fam_hostile_srv(s) + gen.fam_hostile_cli(s)},
-    "C04": {"level": "model_checking", "model_replay": (40, 400), "mc": {"quick": ["MC_err_close"], "thorough": ["MC_err_close", "MCT_one_close", "MCT_err_all2"]}, "also": ["C16_NoSuccessOnWrongCount"], "hang": True,
+    "C04": {"level": "model_checking", "model_replay": (40, 400), "mc": {"quick": ["MC_err_close"], "thorough": ["MC_err_close", "MCT_one_close", "MCT_err_all2", "Live_one", "Live_err_cancel"]}, "also": ["C16_NoSuccessOnWrongCount"], "hang": True,
             "quick": lambda s: gen.fam_life(s, 5),
             "thorough": lambda s: gen.fam_life(s, 0) + gen.fam_gates(s, 0, faults=("close",))},
-    "C07": {"level": "model_checking", "model_replay": (40, 400), "mc": {"quick": ["MC_err_cancel"], "thorough": ["MC_err_cancel", "MC_down_cancel", "MCT_one_cancel"]}, "also": ["C16_NoSuccessOnWrongCount"], "hang": True,
+    "C07": {"level": "model_checking", "model_replay": (40, 400), "mc": {"quick": ["MC_err_cancel"], "thorough": ["MC_err_cancel", "MC_down_cancel", "MCT_one_cancel", "Live_err_cancel"]}, "also": ["C16_NoSuccessOnWrongCount"], "hang": True,
             "quick": lambda s: gen.fam_cancel(s, 5) + gen.fam_inflight(s) + gen.fam_gates(s, 4, gates=["cli.alloc", "cli.watch.fired", "cli.cancel.finished", "cli.cancel.emit", "srv.finish.cancelled", "srv.close.emit", "car.sent.c2s.cancel"], faults=("cancel@park", "cancel")),
             "thorough": lambda s: gen.fam_cancel(s, 0) + gen.fam_inflight(s) + gen.fam_gates(s, 0, faults=("cancel",))},
     "C03": {"level": "model_checking", "hang": True, "mc": {"quick": ["MC_two_stepped"], "thorough": ["MC_two_stepped", "MCT_two_stepped_all"]},
@@ -272,6 +272,8 @@ PROPS = {
             "quick": lambda s: gen.fam_hostile_srv(s) + gen.fam_hostile_cli(s),
             "thorough": lambda s: gen.fam_hostile_srv(s) + gen.fam_hostile_cli(s)},
     "C05": {"level": "model_checking", "runner": run_c05, "hang": True, "also": ["C03_BystandersComplete", "C06_SenderWithinWindow", "C06_CreditBounded"],
+            # liveness of the tunnel design under fairness (every caller operation returns, every handler ends)
+            "mc": {"quick": ["MC_one"], "thorough": ["MC_one", "MC_two_stepped", "Live_one", "Live_err_cancel"]},
             "quick": lambda s: gen.fam_flow(s, 48) + gen.fam_data(s, 16),
             "thorough": lambda s: gen.fam_flow(s, 400) + gen.fam_data(s, 100, big=True),
             "technique": "TLC model checking of FlowSender.tla + exhaustive gated replay of its state graph against the real sender (trace validation); tunnel-level trace validation; Apalache induction on FlowAbs.tla (thorough)"},
